@@ -220,7 +220,21 @@ int main(int argc, char **argv) {
             std::string bytes = cp::print(d, tape, po, info);
             if (!info.ok) { count_excluded("unprintable"); RC_DISCARD("unprintable"); }
             // occasionally blow the document up beyond the 4096-byte read buffer / the 133120-unit scan buffer with a big text field
-            int big = *rc::gen::weightedElement<int>({{66, 0}, {20, 1}, {8, 2}, {2, 3}, {4, 4}});
+            int big = *rc::gen::weightedElement<int>({{63, 0}, {20, 1}, {8, 2}, {2, 3}, {4, 4}, {3, 5}});
+            long forced_target = -1;
+            if (big == 5) {
+                // a multi-line string or text field whose closing delimiter is the LAST character of the buffer fill at which the scan buffer
+                // (131200 units) is full of small tokens for the first time: the look-ahead behind the delimiter then refills, compacting the
+                // buffer with the token in it.  ~129000 bytes of comment lines, then the value; the padding moves its end onto byte 131071.
+                { size_t e = bytes.find('\n'); bytes = e == std::string::npos ? std::string("#\\#CIF_2.0\n") : bytes.substr(0, e + 1); }   // ASCII only: byte offsets = unit offsets
+                std::string tf = "\ndata_many\n";
+                for (int i = 0; tf.size() + bytes.size() < 128800; i++) { tf += "#"; tf += std::string((size_t) (50 + (i * 7) % 13), (char) ('a' + i % 26)); tf += "\n"; }
+                int kind = *g::range(0, 2);
+                tf += kind == 0 ? "_v\n;The quick\nbrown fox\n;" : kind == 1 ? "_v \'\'\'The quick\nbrown fox\'\'\'" : "_v \"\"\"The quick brown fox\"\"\"";
+                forced_target = (long) (bytes.size() + tf.size() - 1);      // offset (before padding) of the last delimiter character
+                tf += "\n_after 1\n";
+                bytes += tf; label("token-ends-full-buffer-fill");
+            }
             if (big == 4) {
                 // more than a scan buffer (131200 units) of SMALL tokens: the buffer then fills up to its end between compactions, and the
                 // last, short read of the file meets it at an arbitrary fill level (terminator folding shifts the level against the
@@ -237,11 +251,11 @@ int main(int argc, char **argv) {
                 tf += ";\n";
                 bytes += tf;
             }
-            if (*g::chance(35)) { auto ed = *rc::gen::container<std::vector<int>>((size_t) (3 * *g::range(1, 3)), g::range(0, 99999)); bytes = mutate(bytes, ed); }
+            if (big != 5 && *g::chance(35)) { auto ed = *rc::gen::container<std::vector<int>>((size_t) (3 * *g::range(1, 3)), g::range(0, 99999)); bytes = mutate(bytes, ed); }
             // the very first character of the input is handled by its own code (get_first_char): let it be a line terminator sometimes
             // (the version comment is then no longer at the start of the file, so the document is read by CIF 1.1 rules -- with whatever
             // errors that entails, identically for every terminator style)
-            if (*g::chance(12)) bytes = (*g::chance(50) ? "\n" : "\n\n") + bytes;
+            if (big != 5 && *g::chance(12)) bytes = (*g::chance(50) ? "\n" : "\n\n") + bytes;
             // known finding F-DECODE-LINE: a decoding error (invalid UTF-8) is reported with the line the scanner had reached when the
             // buffer was filled, which depends on the fill boundaries.  Such documents are excluded (counted): the stray bytes are replaced.
             // (The same holds for any non-ASCII byte of a document read by CIF 1.1 rules, i.e. without the version comment at its very
@@ -253,6 +267,7 @@ int main(int argc, char **argv) {
             c.seti("utf16", *g::chance(12) ? 1 : 0);
             if (*g::chance(30)) { std::string m; int n = *g::range(1, 6); for (int i = 0; i < n; i++) m += std::to_string(*rc::gen::element(1, 2, 3, 7, 100, 1000, 4095, 4096, 4097, 10000)) + " "; c.set("chunks", m); }
             // target: a byte of the document to move next to a fill boundary: prefer line terminators inside values and multi-byte characters
+            if (big == 5) { c.seti("variant", *g::chance(70) ? V_LF : V_CR); c.seti("utf16", 0); }   // one byte per unit, one unit per terminator: the fill level is the byte offset
             bool two = big >= 1 && big <= 3 && !c.geti("utf16") && *g::chance(40);      // two-boundary mode: one terminator ends a fill, another opens a later fill
             if (two) c.seti("variant", V_MIXED);
             if (two || *g::chance(75)) {
@@ -272,6 +287,9 @@ int main(int argc, char **argv) {
                     if (two && !cand2.empty()) { c.seti("target2", cand2[(size_t) *g::range(0, 999999) % cand2.size()]); c.seti("delta2", *rc::gen::weightedElement<int>({{6, 0}, {2, -1}, {2, 1}})); }
                 } else c.seti("target", -1);
             } else c.seti("target", -1);
+            if (forced_target >= 0) {   // with_padding(…, 0) puts three empty comment lines (6 bytes) after the first line
+                c.seti("target", forced_target + 6); c.seti("delta", -1); c.seti("target2", -1);
+            }
             VH_BEGIN(c);
             if (bytes.size() < 200) sample("variant=" + std::to_string(c.geti("variant")) + " " + bytes);
             std::string m = run_case(c);
